@@ -72,6 +72,25 @@ def spelling_programs():
     return progs
 
 
+def mixed_ok(prog, pi, R):
+    """entry "mixed" = some items exported alone (`TS::export`), then the LAST item with `export_all`. The whole directory has to be closed
+    when every item exported alone is among the real dependencies of that root (then everything written belongs to the root's closure)."""
+    named = [(pr, r) for pr, r in zip(prog["probes"], R) if pr["ty"]["k"] == "named"]
+    if not named:
+        return False
+    by_ident = {r.get("ident"): r for _, r in named}
+    reach, todo = set(), [named[-1][1].get("ident")]
+    while todo:
+        n = todo.pop()
+        if n in reach or n not in by_ident:
+            continue
+        reach.add(n)
+        todo += [d[0].split("<")[0] for d in by_ident[n].get("deps", [])] + [d[0].split("<")[0] for d in by_ident[n].get("generics", [])]
+    alone = e2e.mixed_alone(prog, pi)
+    ids = {id(pr): r.get("ident") for pr, r in named}
+    return all(ids.get(id(pr)) in reach for pr in alone)
+
+
 def check_spellings(ctx, c):
     progs = spelling_programs()
     real, _ = e2e.build_and_run(ctx, "c03s", progs)
@@ -85,12 +104,14 @@ def check_spellings(ctx, c):
                     ctx.broken.append(f"compiled correspondence (file spellings): {pr['ty']['id']} {k}: impl={json.dumps(r.get(k))[:300]} model={json.dumps(m.get(k))[:300]}")
                     break
     n = 0
-    for how in ("to", "env"):
+    for how in ("to", "env", "mixed"):
         steps, trees = e2e.run_export(ctx, "c03s", how, os.path.join(vlib.SCRATCH, "c03s", how))
         for pi, prog in enumerate(progs):
             n += 1
             tree = dict(trees.get(f"p{pi}", {}))
             probs = tsparse.closure_problems({posixpath.normpath("base/" + k): v for k, v in tree.items() if k.endswith(".ts")})
+            if how == "mixed" and not mixed_ok(prog, pi, real[pi]):
+                continue
             st = steps[pi] if pi < len(steps) else []
             if any(x != "ok" for x in st):
                 probs.append(f"export returned {st}")
@@ -111,7 +132,7 @@ def run(ctx):
     total = nontriv = fails = 0
     known_hit = {}
     base = os.path.join(vlib.SCRATCH, "c03")
-    for how, spelled in (("to", os.path.join(base, "abs_out")), ("env", os.path.join(base, "env_out")), ("to", os.path.join(base, "x", "..", "dots_out", "."))):
+    for how, spelled in (("to", os.path.join(base, "abs_out")), ("env", os.path.join(base, "env_out")), ("to", os.path.join(base, "x", "..", "dots_out", ".")), ("mixed", os.path.join(base, "mixed_out"))):
         steps, trees = e2e.run_export(ctx, "main", how, spelled)
         for pi, prog in enumerate(c.programs):
             tree = dict(trees.get(f"p{pi}", {}))
@@ -122,6 +143,8 @@ def run(ctx):
                     tree["../up/" + k] = v
             total += 1
             probs = tsparse.closure_problems({posixpath.normpath("base/" + k): v for k, v in tree.items() if k.endswith(".ts")})
+            if how == "mixed" and not mixed_ok(prog, pi, c.real[pi]):
+                continue
             st = steps[pi] if pi < len(steps) else []
             if any(x != "ok" for x in st):
                 probs.append(f"export returned {st}")
@@ -148,7 +171,7 @@ def run(ctx):
     check_findings(ctx)
     check_spellings(ctx, c)
     ctx.stream("exported directories (compiled corpus) judged by an independent TypeScript reader", total, nontriv,
-               f"{len(c.programs)} programs x {{export_all_to(absolute dir), export_all() with TS_RS_EXPORT_DIR, export_all_to(dir with dot segments)}}: every root exported with its dependencies; "
+               f"{len(c.programs)} programs x {{export_all_to(absolute dir), export_all() with TS_RS_EXPORT_DIR, export_all_to(dir with dot segments), export() of every second item alone of those the last item depends on, followed by export_all() of the last item}}: every root exported with its dependencies; "
                "placements: default, directory form, shared file, nested, `../` escape; generics, defaults, inline/flatten/as, cycles; oracle: every used name imported exactly once, "
                "imports resolve to written files declaring the names, no self-import, nothing unused; plus model = implementation on export_to_string / dependencies / output_path",
                [{"program": 0}], {"failures": fails, "model_disagreements": len(c.disagreements)})
